@@ -44,8 +44,15 @@ def factor_str(t):
     if t.startswith("`") and t.endswith("`"):
         inner = t[1:-1]
         return "`%s`" % inner if ":" in inner else inner
-    if t.startswith("{") and t.endswith("}"):
-        return t[1:-1]
+    if (t.startswith("{") and t.endswith("}")) or t.endswith(")"):
+        import ast
+
+        code = t[1:-1] if t.startswith("{") else t
+        try:
+            code = ast.unparse(ast.parse(code.strip(), mode="eval")).replace("\n", " ")  # formatting-insensitive
+        except SyntaxError:
+            pass
+        return "`%s`" % code if ":" in code else code
     return t
 
 
@@ -288,9 +295,24 @@ def eval_part(tokens, intercept, avail, used, on_lhs=False):
 
 
 def names_in(tokens):
+    """data variables referenced by the operand tokens (used for '.' on the other side of ~)"""
+    import ast
+
     out = []
     for t in tokens:
-        if is_name(t) and not (t.startswith("{") or t.endswith(")")):
+        if not is_name(t):
+            continue
+        if t.startswith("{") or t.endswith(")"):
+            code = t[1:-1] if t.startswith("{") else t
+            try:
+                tree = ast.parse(code, mode="eval")
+            except SyntaxError:
+                continue
+            called = {id(n.func) for n in ast.walk(tree) if isinstance(n, ast.Call)}
+            for n in ast.walk(tree):
+                if isinstance(n, ast.Name) and id(n) not in called and n.id not in out:
+                    out.append(n.id)
+        else:
             out.append(t.strip("`"))
     return out
 
